@@ -139,21 +139,69 @@ struct Sim {
     std::unique_ptr<CoinStatsIndex> csi;
     std::unique_ptr<TxoSpenderIndex> spi;
     std::string down_memo = "never-up";
-    std::map<uint256, RefStats> stats_cache;
+    std::map<uint256, RefStats>& stats_cache;
     std::string hist;
     Out& out;
     static std::set<uint256>& emitted() { static std::set<uint256> s; return s; } // per worker process: US lines already sent
 
-    explicit Sim(Out& o) : n(ck::NodeOpts{}), out(o)
+    // Per worker process: the 102-block base chain with all four indexes synced and committed is built once in an
+    // on-disk datadir; every replay starts from a copy of that directory (a real restart of node + indexes).
+    struct Base { std::string dir; ck::RefLedger L; uint256 tip; int height = 0; };
+    static ck::NodeOpts disk_opts(const std::string& dir)
     {
-        L.AddGenesis(Params().GenesisBlock());
-        SetMockTime(Params().GenesisBlock().nTime + 600 * 100000);
-        ck::MineEmpty(n, L, BASE_BLOCKS);
-        base_tip = n.tip()->GetBlockHash();
-        base_height = n.height();
-        n.Flush();
+        ck::NodeOpts o;
+        o.datadir = dir;
+        o.coins_db_in_memory = false;
+        o.block_tree_db_in_memory = false;
+        o.extra_args = {"-checkblocks=1", "-checklevel=0"};
+        return o;
+    }
+    static Base& base()
+    {
+        static Base b = [] {
+            Base x;
+            x.dir = std::string(getenv("TMPDIR")) + "/base";
+            SetMockTime(int64_t{1296688602} /* regtest genesis time */ + 600 * 100000);
+            {
+                ck::Node n(disk_opts(x.dir));
+                x.L.AddGenesis(Params().GenesisBlock());
+                ck::MineEmpty(n, x.L, BASE_BLOCKS);
+                x.tip = n.tip()->GetBlockHash();
+                x.height = n.height();
+                n.Flush();
+                auto mk = [&] { return interfaces::MakeChain(n.m_node); };
+                TxIndex a(mk(), 1 << 20, false, false);
+                BlockFilterIndex b2(mk(), BlockFilterType::BASIC, 1 << 20, false, false);
+                CoinStatsIndex c(mk(), 1 << 20, false, false);
+                TxoSpenderIndex d(mk(), 1 << 20, false, false);
+                for (BaseIndex* i : std::vector<BaseIndex*>{&a, &b2, &c, &d}) { if (!i->Init()) throw std::runtime_error("base index init"); i->Sync(); }
+                // a flush makes the indexes commit their best block (ChainStateFlushed); force one even though nothing is dirty
+                n.Flush();
+                for (BaseIndex* i : std::vector<BaseIndex*>{&a, &b2, &c, &d}) { i->Commit(); if (i->GetDB().ReadBestBlock().IsNull()) throw std::runtime_error("base index did not commit"); }
+            }
+            return x;
+        }();
+        return b;
+    }
+    static ck::NodeOpts prep()
+    {
+        Base& b = base();
+        const std::string run = std::string(getenv("TMPDIR")) + "/run";
+        std::error_code ec;
+        std::filesystem::remove_all(run, ec);
+        std::filesystem::copy(b.dir, run, std::filesystem::copy_options::recursive);
+        SetMockTime(int64_t{1296688602} /* regtest genesis time */ + 600 * 100000);
+        return disk_opts(run);
+    }
+    static std::map<uint256, RefStats>& stats_cache_ref() { static std::map<uint256, RefStats> m; return m; } // pure function of the block hash: shared by all replays of this process
+
+    explicit Sim(Out& o) : n(prep()), L(base().L), stats_cache(stats_cache_ref()), out(o)
+    {
+        base_tip = base().tip;
+        base_height = base().height;
+        if (n.tip()->GetBlockHash() != base_tip) throw std::runtime_error("restarted node is not at the base tip");
         up();
-        sync_all();
+        if (!all_synced()) throw std::runtime_error("indexes reopened on the base datadir are not synced");
     }
     ~Sim() { down(); }
 
